@@ -351,6 +351,23 @@ func init() {
 				p.Chain = append(p.Chain, world.ChainEv{AtMs: rapid.IntRange(500, 300000).Draw(t, "evat"), Chain: pick(t, "evchain", []string{"btc", "lbtc"}),
 					Kind: pick(t, "evkind", []string{"mine", "mine", "mine", "reorg", "reorg-delay", "reorg-hold"}), N: pick(t, "evn", []int{1, 1, 2, 3, 5, 8, 60, 520, 1010})})
 			}
+			if rapid.IntRange(0, 4).Draw(t, "slow-iteration") == 0 {
+				// focused: one query of the watcher's back-end takes several block periods (a loaded
+				// or catching-up node); block notifications pile up meanwhile and the watched
+				// transaction confirms in the newest of those blocks
+				scn.BlockEverySec = 5
+				ch := pick(t, "sichain", []string{"btc", "btc", "lbtc"})
+				scn.LiquidBackend[0] = pick(t, "sibackend", []string{"elementsd", "lwk"})
+				k := rapid.IntRange(1, 3).Draw(t, "siblock") // the slow query happens at the k-th block
+				slow := pick(t, "sislow", []int{11500, 16500, 17000, 22000})
+				p.Watch = append(p.Watch, world.WatchSpec{Chain: ch, Kind: "conf", RegisterMs: 500, BroadcastMs: k*5000 + slow - pick(t, "sibc", []int{1000, 3500, 6000, 8500}),
+					StartOffset: 0, Window: pick(t, "siwin", []uint32{504, 60, 8, 6, 5, 4}), CSV: 1008})
+				site := ch + pick(t, "sisite", []string{".rpc.gettxout", ".rpc.blockhash", ".rpc.gettxout"})
+				if ch == "lbtc" && scn.LiquidBackend[0] == "lwk" {
+					site = pick(t, "sisite2", []string{"electrum.history", "electrum.history", "electrum.getrawtx"})
+				}
+				p.Faults = append(p.Faults, world.Fault{Node: 0, Site: site, Kind: "slow", Ms: slow, FromMs: k*5000 - 900, ToMs: k*5000 + 900})
+			}
 			if rapid.IntRange(0, 2).Draw(t, "reorg-in-window") == 0 && scn.BlockEverySec > 0 {
 				// focused: a reorganisation while a watched transaction has some, but not yet
 				// the required number of confirmations
@@ -378,7 +395,7 @@ func init() {
 			nf := rapid.IntRange(0, 2).Draw(t, "nf")
 			for i := 0; i < nf; i++ {
 				p.Faults = append(p.Faults, world.Fault{Node: 0, Site: pick(t, "fsite", []string{"btc.rpc.height", "btc.rpc.gettxout", "btc.rpc.blockhash", "btc.rpc.getrawtx", "lbtc.rpc.height", "lbtc.rpc.gettxout", "lbtc.rpc.getrawtx", "electrum.history", "electrum.getrawtx"}),
-					Occ: rapid.IntRange(1, 30).Draw(t, "focc"), Kind: pick(t, "fkind", []string{"err", "stale"}), N: pick(t, "fn", []int{1, 3, 10})})
+					Occ: rapid.IntRange(1, 30).Draw(t, "focc"), Kind: pick(t, "fkind", []string{"err", "stale", "slow", "slow"}), N: pick(t, "fn", []int{1, 3, 10}), Ms: pick(t, "fms", []int{1500, 6000, 12000, 45000})})
 			}
 			if rapid.Bool().Draw(t, "sched") {
 				p.SchedSeed = rapid.Uint64Range(1, 1<<32).Draw(t, "schedseed")
